@@ -319,7 +319,7 @@ impl FaultEngine {
                 rec.op(line.to_string(), "bad-op");
                 continue;
             }
-            if line.as_str() == "reset" { drop(wx); wx = WorldExec::new(fe, mode); wx.wait_secs = WAIT_SECS; rec.op("reset", "ok"); continue; }
+            if line.as_str() == "reset" { drop(wx); wx = WorldExec::new(fe, mode); wx.wait_secs = WAIT_SECS; rec.op("reset", "ok"); rec.op(cfg.to_string(), "ok"); continue; }
             let out = exec(&mut wx, line);
             rec.op(line.to_string(), out.clone());
             rec.stat(format!("op={}", w[0]));
